@@ -24,9 +24,9 @@ pub struct Atom {
     pub searches: Vec<u64>,
 }
 
-pub const KINDS: [&str; 24] = [
+pub const KINDS: [&str; 26] = [
     "down", "loop_if", "loop_or", "loop_iferror", "loop_optor", "map", "map_down", "nth", "take_while", "skip_until", "gen_len", "gen_map_len", "gen_get",
-    "seq_eq", "binom", "multinom", "multinom3", "loop_optopt", "gen_windows", "gen_filter", "nth_back", "seq_cmp", "seq_to_str", "seq_hash",
+    "seq_eq", "binom", "multinom", "multinom3", "loop_optopt", "gen_windows", "gen_filter", "nth_back", "seq_cmp", "seq_to_str", "seq_hash", "regex_miss", "regex_scan",
 ];
 
 const PRIME: u128 = 1_000_003;
@@ -343,6 +343,32 @@ pub fn atom(kind: &str, k: usize, n: u64) -> Atom {
             height: 0,
             tail: 0,
             searches: vec![n],
+        },
+        // regex search: one search step per byte an anchored attempt reads. "a" over n b's: each of the n start
+        // offsets reads one byte and dies (the offset at the end reads none)
+        "regex_miss" => Atom {
+            kind: "regex_miss",
+            param: n,
+            decl: String::new(),
+            // (`search` is one user-level std function; the haystack is a literal so that no other std code runs)
+            expr: format!("if(regex(\"a\").search(\"{}\").has_value(), 0 - 1, {n})", "b".repeat(n as usize)),
+            value: ni,
+            calls: 1,
+            height: 1,
+            tail: 0,
+            searches: vec![n],
+        },
+        // "a*b" over n a's: the attempt at offset k reads the n - k remaining bytes and fails at the end
+        "regex_scan" => Atom {
+            kind: "regex_scan",
+            param: n,
+            decl: String::new(),
+            expr: format!("if(regex(\"a*b\").search(\"{}\").has_value(), 0 - 1, {n})", "a".repeat(n as usize)),
+            value: ni,
+            calls: 1,
+            height: 1,
+            tail: 0,
+            searches: vec![n * (n + 1) / 2],
         },
         other => panic!("unknown atom kind {other}"),
     }
